@@ -106,7 +106,10 @@ def sc_c11(name, seed, counts, tier):
     lines = ["NEW"]
     m = key_mac(1)
     tables = [[], ["TADD 1 7 9"], ["TADD 1 7 4"], ["TADD 1 8 9"], ["TADD 2 7 4"],
-              ["TADD %d 1 1" % k for k in range(10, 26)], ["TADD %d 1 1" % k for k in range(10, 25)] + ["TADD 1 7 3"]]
+              ["TADD %d 1 1" % k for k in range(10, 26)], ["TADD %d 1 1" % k for k in range(10, 25)] + ["TADD 1 7 3"],
+              # sparse tables: the mapper's session sits behind free slots (earlier sessions removed / expired)
+              ["TADD 5 1 1", "TADD 6 1 1", "TADD 1 7 4", "TREM 5 1", "TREM 6 1"],
+              ["TADD 5 1 1", "ADV 30000", "TADD 1 7 3", "ADV 40000", "TTICK"]]
     for ti, tb in enumerate(tables):
         lines.append("TCLEAR")
         lines += tb
@@ -177,7 +180,29 @@ def campaign_c13(seed, tier):
                 for r in rs[c::chunks]:     # ascending r per (prev, begun): monotonicity is checked along the way
                     lines.append("BAND %d %d %d %d" % (prev, r >> 16, r & 0xFFFF, begun))
         scs.append(Scenario("c13-%d" % c, lines))
+    # the formula at the level of the tick: blocks closed by on-time and by late ticks
+    for i in range(24 if tier == "quick" else 600):
+        scs.append(sc_band_ticks("c13-tick-%d" % i, rng.randrange(1 << 30)))
     return scs
+
+
+def sc_band_ticks(name, seed):
+    rng = random.Random(seed)
+    lines = ["NEW"]
+    f = discover(0, key_mac(1), gen=1, seq=1, stations=[key_mac(9)])     # a session that is never acknowledged
+    lines.append("GLUE %d 0 %s" % (len(f), f.hex()))
+    for _ in range(60):
+        x = rng.random()
+        if x < 0.45:
+            lines.append("HEARD %d" % rng.choice([1, 1, 2, 3, 5, 9, 10, 14, 15, 16, 20, 40]))
+        elif x < 0.55:
+            h = hello(0, key_mac(20 + rng.randrange(5)), 1, key_mac(1), key_mac(1))
+            lines.append("GLUE %d 0 %s" % (len(h), h.hex()))
+        elif x < 0.62:
+            lines.append("GLUE %d 0 %s" % (len(f), f.hex()))      # refresh the session
+        lines.append("ADV %d" % rng.choice([10, 100, 100, 200, 299, 300, 301, 599, 600, 601, 900, 1000, 1300, 3000, 10000]))
+        lines.append("TICK")
+    return Scenario(name, lines)
 
 
 # --------------------------------------------------------------------------- C12 (and tick schedules)
